@@ -361,6 +361,41 @@ pub fn run(mut run: Run) -> i32 {
             }
         });
     }
+    // segments whose squared length overflows although the length does not (axis-parallel, so that the orientation predicate behind `intersects` sees no
+    // overflowing product): queries that project to 1/8 .. 7/8 of the segment, at a small and at a large offset; f64 at 2^513, f32 at 2^65
+    {
+        run.stage("closest-point-huge-segments", 7 * 2 * 2 * 2 * 2, |idx, acc| {
+            let (tk, vertical, far, reversed, f32_twin) = (idx / 16 + 1, (idx / 8) % 2 == 1, (idx / 4) % 2 == 1, (idx / 2) % 2 == 1, idx % 2 == 1);
+            acc.class(format!("huge segment f32{} vertical{}", f32_twin, vertical));
+            macro_rules! go {
+                ($t:ty, $e:expr, $tol:expr) => {{
+                    let len: $t = (2.0 as $t).powi($e);
+                    let t = tk as $t / 8.0;
+                    let off: $t = if far { len / 1024.0 } else { 3.0 };
+                    let mk = |along: $t, across: $t| if vertical { Coord::<$t> { x: across, y: along } } else { Coord::<$t> { x: along, y: across } };
+                    let (s0, s1) = if reversed { (mk(len, 0.0), mk(0.0, 0.0)) } else { (mk(0.0, 0.0), mk(len, 0.0)) };
+                    let line = geo::Line::new(s0, s1);
+                    let q = geo::Point(mk(t * len, off));
+                    let want = mk(t * len, 0.0);
+                    acc.evals += 2;
+                    for (name, got) in [("Line", guard(|| line.closest_point(&q))), ("LineString", guard(|| geo::LineString::new(vec![s0, s1]).closest_point(&q)))] {
+                        let ok = match &got {
+                            Ok(Closest::SinglePoint(r)) => ((r.x() - want.x).abs() as f64) <= $tol * len as f64 && ((r.y() - want.y).abs() as f64) <= $tol * len as f64,
+                            _ => false,
+                        };
+                        if !ok {
+                            acc.viol(format!("closest_point<{}> of a {} whose squared length overflows is not the foot of the perpendicular", stringify!($t), name), idx, || json!({"segment": format!("{:?}", line), "query": format!("{:?}", q), "expected": format!("{:?}", want), "got": format!("{:?}", got)}));
+                        }
+                    }
+                }};
+            }
+            if f32_twin {
+                go!(f32, 65, 1e-6);
+            } else {
+                go!(f64, 513, 1e-14);
+            }
+        });
+    }
     // closest_point on longer segments: projection parameters that are not representable (thirds, sevenths ...)
     let gq: Vec<IP> = { let m = if quick { 11 } else { 15 }; grid(m).into_iter().map(|p| (2 * p.0 - 5, p.1 - 3)).collect() };
     let ngq = gq.len();
